@@ -113,21 +113,23 @@ def per_input(c, L):
 
 def write_def_post(c):
     t = [e for e in c.trace if e[0] in ('write', 'virtual', 'input-spec', 'loop-head')]
-    kinds = [(e[0], e[1]) for e in t]
     heads = [i for i, e in enumerate(t) if e[0] == 'loop-head']
     if not heads:
         return z3.BoolVal(False)
     before, after = t[:heads[0]], [e for e in t[heads[-1] + 1:]]
-    exp = [('virtual', 'name'), ('write', 'pascal_str'), ('virtual', '_rate_number'), ('write', 'i8'),
-           ('virtual', '_num_inputs'), ('write', 'i32'), ('virtual', '_num_outputs'), ('write', 'i32'),
-           ('write', 'i16')]
-    if [(e[0], e[1]) for e in before] != exp:
+    writes = [e for e in before if e[0] == 'write']
+    if [e[1] for e in writes] != ['pascal_str', 'i8', 'i32', 'i32', 'i16']:      # the header fields, in file order
         return z3.BoolVal(False)
     f = c._params['file']
-    files_ok = all(same(e[2], f) for e in before if e[0] == 'write')
-    vals_ok = (same(before[1][3], before[0][2]) and same(before[3][3], before[2][2])
-               and same(before[5][3], before[4][2]) and same(before[7][3], before[6][2]))
-    spidx = before[8][3]
+    files_ok = all(same(e[2], f) for e in writes)
+
+    def result_of(name, v):
+        """v is what a call of that virtual method returned (whenever it was made)"""
+        return any(e[0] == 'virtual' and e[1] == name and same(e[2], v) for e in before)
+    vals_ok = (result_of('name', writes[0][3]) and result_of('_rate_number', writes[1][3])
+               and result_of('_num_inputs', writes[2][3]) and result_of('_num_outputs', writes[3][3]))
+    spidx = writes[4][3]
+    after = [e for e in after if e[0] in ('write', 'input-spec') or (e[0] == 'virtual' and e[1] == '_write_output_specs')]
     outs_ok = (len(after) == 1 and after[0][0] == 'virtual' and after[0][1] == '_write_output_specs'
                and len(after[0][3]) == 1 and same(after[0][3][0], f))
     return z3.And(z3.BoolVal(bool(files_ok and vals_ok and outs_ok)),
